@@ -119,6 +119,13 @@ def bname(p, b, mod=""):
   return cname(p, b % 100, mod) + SUFFIX[b // 100]
 
 
+def stub_bname(p, b):
+  """Base spelling inside the stub: K[int] / K[str] are written bare there (a stub that binds one
+  type variable to two types through different bases is refused as a whole by the loader -
+  VerifyContainers - which is not the property under test); K[T] and Generic[T] are kept."""
+  return bname(p, b if (b == GEN or b // 100 in (0, 3)) else b % 100)
+
+
 def kind_of(h):
   return h.get("kind", "hier")
 
@@ -176,7 +183,7 @@ def render_stub(hs):
       bs = h["bases"][c - 1]
       if kind_of(h) == "gen" and h["lin"][c - 1]["st"] != "ok":
         continue   # generic family: the stub holds the classes that exist
-      head = "class %s%s:" % (cname(p, c), "(%s)" % ", ".join(bname(p, b) for b in bs) if bs else "")
+      head = "class %s%s:" % (cname(p, c), "(%s)" % ", ".join(stub_bname(p, b) for b in bs) if bs else "")
       body = ["    p_%d_%d: T%d" % (x, y, c) for (x, y) in pairs_of(h) if c in (x, y)]
       if body:
         lines.append(head)
@@ -420,7 +427,13 @@ _serial = 0
 
 
 def work(item):
-  """Worker: all observations for one batch of hierarchies.  Returns (cases, other_errors)."""
+  """Worker: all observations for one batch of hierarchies.  Returns (cases, other_errors, cpu)."""
+  t0 = time.time()
+  cases, others = work1(item)
+  return cases, others, (kind_of(item[1][0]), time.time() - t0)
+
+
+def work1(item):
   bid, hs, sdir = item
   boot.boot()
   kind = kind_of(hs[0])
@@ -622,10 +635,13 @@ def judge(run, hs, procs=8):
     shutil.rmtree(sdir, ignore_errors=True)
   byid = {ident(h): h for h in hs}
   cases = []
-  for cs, others in results:
+  for cs, others, (kind, secs) in results:
     cases += cs
+    run.add("worker_s_" + kind, round(secs, 2))
     for o in others:
       run.diverge({"unexpected-error": o})
+  for k in [k for k in run.cov if k.startswith("worker_s_")]:
+    run.cov[k] = round(run.cov[k], 1)
   run.add("pytype_modules", sum(1 if kind_of(it[1][0]) == "hist" else 2 for it in items))
   for c in cases:
     run.add("cases_" + c["kind"])
@@ -646,6 +662,9 @@ def judge(run, hs, procs=8):
     off, part = arg
     nv, bad, r = tlc.validate_cases("TraceC10", part, cfg=TRACE_CFG, timeout=3000, heap="4g")
     common.require(bad is None and nv == len(part), "TraceC10 did not consume its cases")
+    for cov in tlc.parse_cases(r.out, "COV"):
+      run.add("%s_reads_wellTyped" % cov["kind"], cov["judged"])
+      run.add("%s_reads_illTyped_notJudged" % cov["kind"], cov["total"] - cov["judged"])
     return off, tlc.parse_cases(r.out, "ORACLE"), tlc.parse_cases(r.out, "BAD"), r.distinct
   t0 = time.time()
   with cf.ThreadPoolExecutor(max_workers=4) as ex:
@@ -690,6 +709,11 @@ def lin_of(bases):
   return [{"st": s if s in ("ok", "dup", "order") else "order", "mro": m} for s, m in zip(st, mros)]
 
 
+def note(msg):
+  sys.stderr.write("[c10 %s] %s\n" % (time.strftime("%H:%M:%S"), msg))
+  sys.stderr.flush()
+
+
 def tag_kind(cases, kind):
   """Cases exported by TLC -> driver records of one kind (hist keeps the program, the others only
   the hierarchy: replaying the class statements alone is a behaviour of the spec as well)."""
@@ -732,18 +756,20 @@ def main():
   # simulation with both dimensions switched on; every behaviour gives a gen and a hist case)
   sp = (0, 1, 2, 3)
   xfams = [("gen", "generic-bases", dict(mc=2, obj=False, mb=3, spellings=sp, generic=True))]
+  xfams += [("hist", "histories-2x4", dict(mc=2, obj=False, mf=0, mb=2, defs=True, events=4))]
   if thorough:
     xfams += [("gen", "generic-bases-3", dict(mc=3, obj=False, mb=2, spellings=sp, generic=True)),
-              ("hist", "histories-2x4", dict(mc=2, obj=False, mf=0, mb=2, defs=True, events=4)),
               ("hist", "histories-3x3", dict(mc=3, obj=False, mf=0, mb=2, defs=True, events=3))]
-  else:
-    xfams += [("hist", "histories-2x3", dict(mc=2, obj=False, mf=0, mb=2, defs=True, events=3))]
-  nxsim = 2500 if thorough else 300
-  xsim = dict(mc=5, obj=True, mf=2, mb=3, spellings=sp, generic=True, defs=True, events=6,
-              modes=ALL_MODES)
+  # simulated: histories over <= 4 classes (bases bare or K[int]) with 8 events in all read modes;
+  # hierarchies of 4 classes with all spellings and 3 written bases
+  xsims = [("hist", "histories-sim", 3000 if thorough else 400,
+            dict(mc=4, obj=False, mf=0, mb=2, spellings=(0, 1), generic=True, defs=True, events=8,
+                 modes=ALL_MODES)),
+           ("gen", "generic-bases-sim", 2000 if thorough else 250,
+            dict(mc=4, obj=False, mf=1, mb=3, spellings=sp, generic=True))]
   import concurrent.futures as cf
   jobs = {}
-  with cf.ThreadPoolExecutor(max_workers=9) as ex:
+  with cf.ThreadPoolExecutor(max_workers=12) as ex:
     for label, mc, obj in fams:
       jobs["model", label] = ex.submit(tlc.run, "C3", c3_cfg(mc, obj), workers=8 if thorough else 4,
                                        timeout=3000, seed=run.seed)
@@ -755,9 +781,10 @@ def main():
     for kind, label, kw in xfams:
       jobs["x", label] = ex.submit(tlc.run, "C3", c3_cfg(export=True, invs=MODEL_INVS + ("ExportInv",), **kw),
                                    workers=1, timeout=3000, seed=run.seed, heap="6g")
-    jobs["xsim", "xsim"] = ex.submit(tlc.run, "C3", c3_cfg(export=True, invs=("ExportInv",), **xsim),
-                                     workers=1, timeout=3000, seed=run.seed + 2,
-                                     simulate="num=%d" % nxsim, depth=200)
+    for kind, label, num, kw in xsims:
+      jobs["xsim", label] = ex.submit(tlc.run, "C3", c3_cfg(export=True, invs=("ExportInv",), **kw),
+                                      workers=1, timeout=3000, seed=run.seed + 2,
+                                      simulate="num=%d" % num, depth=200)
   states = trans = 0
   for label, mc, obj in fams:
     r = jobs["model", label].result()
@@ -797,25 +824,28 @@ def main():
     n = take(tag_kind(r.cases, kind))
     run.put("cases_exported_" + label, n)
     common.require(n >= 100, "family %s exported only %d cases" % (label, n))
-  r = jobs["xsim", "xsim"].result()
-  run.add("tlc_export_wall_s", round(r.wall, 1))
-  ng = take(tag_kind(r.cases, "gen"))
-  nh = take(tag_kind(r.cases, "hist"))
-  run.put("simulated_generic", ng)
-  run.put("simulated_histories", nh)
-  common.require(ng > nxsim // 2 and nh > nxsim // 2,
-                 "simulation produced %d generic hierarchies, %d histories" % (ng, nh))
+  for kind, label, num, kw in xsims:
+    r = jobs["xsim", label].result()
+    run.add("tlc_export_wall_s", round(r.wall, 1))
+    n = take(tag_kind(r.cases, kind))
+    run.put("cases_exported_" + label, n)
+    common.require(n > num // 2, "simulation %s produced %d cases" % (label, n))
   run.put("states", states)
   run.put("transitions", trans)
   run.put("model_bounds", {"plain": fams[0][1], "explicit-object": fams[1][1], "MaxBases": 3,
-                           "extended": {label: kw for _, label, kw in xfams}, "simulated-extended": xsim})
+                           "extended": {label: kw for _, label, kw in xfams},
+                           "simulated-extended": {label: kw for _, label, _, kw in xsims}})
   hs = list(seen.values())
+  note("TLC jobs done: %s" % {"%s/%s" % k: round(j.result().wall, 1) for k, j in jobs.items()})
   for h in hs:
     if kind_of(h) == "hist":
       hist_stats(run, h)
     elif kind_of(h) == "gen":
       gen_stats(run, h)
   n = judge(run, hs, procs=8)
+  note("judged: %s; violations so far: %s" % (
+      {k: v for k, v in run.cov.items() if k != "samples" and not isinstance(v, dict)},
+      [v[0] for v in run.violations]))
   run.put("traces_validated_against_impl", n)
   run.put("evaluations", n)
   nontriv = sum(1 for h in hs if kind_of(h) == "hier" and any(len(set(b)) >= 2 for b in h["bases"]))
@@ -834,10 +864,10 @@ def main():
                  "vacuity: too few failing/succeeding statements or reads")
   g = run.cov.get
   common.require(g("gen_dup_mixed_spellings", 0) >= 60 and g("gen_ok_statements_subscripted", 0) >= 100
-                 and g("gen_reads_judged", 0) >= 1000,
+                 and g("gen_reads_judged", 0) >= 1000 and g("gen_reads_wellTyped", 0) >= 500,
                  "vacuity (generic bases): %s mixed-spelling duplicates, %s subscripted ok statements, %s reads"
                  % (g("gen_dup_mixed_spellings", 0), g("gen_ok_statements_subscripted", 0), g("gen_reads_judged", 0)))
-  common.require(g("hist_reads_shadowed_after_read", 0) >= 20 and g("hist_reads_answer_changed", 0) >= 100
+  common.require(g("hist_reads_shadowed_after_read", 0) >= 12 and g("hist_reads_answer_changed", 0) >= 100
                  and g("hist_reads_found_after_missing", 0) >= 20 and g("hist_reads_judged", 0) >= 1500,
                  "vacuity (histories): %s shadowed-after-read, %s changed answers, %s found-after-missing, "
                  "%s reads" % (g("hist_reads_shadowed_after_read", 0), g("hist_reads_answer_changed", 0),
